@@ -31,6 +31,7 @@ const std::string Parser::DiagnosticsReporter::ID_of_ExpectedFeature = "Parser-0
 /* Terminal */
 const std::string Parser::DiagnosticsReporter::ID_of_ExpectedToken = "Parser-101";
 const std::string Parser::DiagnosticsReporter::ID_of_ExpectedTokenWithin = "Parser-102";
+const std::string Parser::DiagnosticsReporter::ID_of_UnexpectedTokensOfFailedParse = "Parser-103";
 const std::string Parser::DiagnosticsReporter::ID_of_ExpectedTokenOfCategoryConstant = "Parser-104";
 const std::string Parser::DiagnosticsReporter::ID_of_ExpectedTokenOfCategoryStringLiteral = "Parser-105";
 const std::string Parser::DiagnosticsReporter::ID_of_ExpectedTokenOfCategoryIdentifier = "Parser-106";
@@ -133,6 +134,21 @@ void Parser::DiagnosticsReporter::ExpectedFeature(const std::string& name)
                                      name + " is either an extension or unsupported in this dialect",
                                      DiagnosticSeverity::Warning,
                                      DiagnosticCategory::Syntax));
+}
+
+void Parser::DiagnosticsReporter::UnexpectedTokensOfFailedParse(LexedTokens::IndexType tkIdx)
+{
+    auto s = std::string("syntax error at `")
+            + parser_->tree_->tokenAt(tkIdx).valueText_c_str()
+            + "'";
+
+    parser_->tree_->newDiagnostic(
+                DiagnosticDescriptor(ID_of_UnexpectedTokensOfFailedParse,
+                                     "[[syntax error]]",
+                                     s,
+                                     DiagnosticSeverity::Error,
+                                     DiagnosticCategory::Syntax),
+                tkIdx);
 }
 
 void Parser::DiagnosticsReporter::ExpectedToken(SyntaxKind tkK)
